@@ -25,7 +25,7 @@ def nontrivial(f):
 
 
 def run(sh):
-    n = 400 if sh.tier == 'quick' else 8000
+    n = 400 if sh.tier == 'quick' else 16000
     engine_line.run_profile(sh, 'C03', 'blocking', n // 2, MONITORS, nontrivial)
     engine_line.run_profile(sh, 'C03', 'general', n // 4, MONITORS, nontrivial)
     engine_line.run_profile(sh, 'C03', 'resources', n // 4, MONITORS, nontrivial)
